@@ -14,7 +14,7 @@ RELATED = {"C01": ["C01", "C05", "C04", "C10"], "C02": ["C02", "C05", "C04"], "C
            "C05": ["C05", "C02", "C01"], "C06": ["C06", "C08", "C19", "C12", "C20"], "C07": ["C07", "C08", "C14", "C16"], "C08": ["C08", "C19", "C07", "C04"],
            "C09": ["C09", "C01"], "C10": ["C10", "C03", "C17"], "C11": ["C11", "C10", "C03"], "C12": ["C12"], "C13": ["C13", "C11"],
            "C14": ["C14", "C08", "C05", "C17"], "C15": ["C15", "C17"], "C16": ["C16", "C08"], "C17": ["C17", "C10", "C05"], "C18": ["C18"],
-           "C19": ["C19", "C08", "C10"], "C20": ["C20"], "X20": ["C20"]}
+           "C19": ["C19", "C08", "C10"], "C20": ["C20"], "X20": ["C20"], "H-s": ["C01", "C05", "C04"]}
 
 
 def main():
@@ -34,6 +34,22 @@ def main():
             bad = [p for p, v in matrix[k].items() if v["exit"] not in (0, 1)]
             print(k, "detected by", det, ("EXIT2 " + str(bad)) if bad else "", "" if det else "   <-- NOT DETECTED")
         return
+    primary = None
+    if argv and argv[0] == "--primary":
+        # run, per change, the checks DESIGN.md section 9 names in its "caught by" column, in that order, and stop at the first that reports
+        # a violation: confirms with the CURRENT machinery that every seeded change is still detected, at a fraction of the full matrix
+        argv = argv[1:]
+        primary = {}
+        for line in open(os.path.join(ROOT, "DESIGN.md")):
+            if not re.match(r"\| (C\d\d-[a-g]|F-\w+|X20)", line):
+                continue
+            cols = [c.strip() for c in line.strip().strip("|").split("|")]
+            ids = []
+            for m in re.findall(r"C\d\d", cols[-1]):
+                if m not in ids:
+                    ids.append(m)
+            for nm in re.findall(r"C\d\d-[a-g]|F-\w+|X20-\w+", cols[0]):
+                primary[nm] = ids
     names = argv or sorted(os.listdir(os.path.join(ROOT, "seeded")))
     names = [n for n in names if os.path.isdir(os.path.join(ROOT, "seeded", n))]
     for name in names:
@@ -45,7 +61,10 @@ def main():
         try:
             subprocess.check_call(["git", "-C", wt, "apply", os.path.join(ROOT, "seeded", name, "patch.diff")])
             row = {}
-            for pid in (RELATED.get(name[:3]) or RELATED[meta["property"][:3]]):
+            plan = RELATED.get(name[:3]) or RELATED[meta["property"][:3]]
+            if primary is not None and primary.get(name) and "not detected" not in str(primary.get(name)):
+                plan = primary[name] + [q for q in plan if q not in primary[name]]
+            for pid in plan:
                 env = dict(os.environ, VERIF_REPO=wt)
                 p = subprocess.run([os.path.join(ROOT, "check"), pid, "--tier", "quick"], env=env, cwd=ROOT, stdout=subprocess.PIPE,
                                    stderr=subprocess.STDOUT, text=True)
@@ -53,6 +72,8 @@ def main():
                 more = re.search(r"\.\.\. (\d+) further", p.stdout)
                 row[pid] = {"exit": p.returncode, "violations": nv + (int(more.group(1)) if more else 0)}
                 print(name, pid, row[pid], flush=True)
+                if primary is not None and p.returncode == 1:
+                    break
             json.dump(row, open(os.path.join(part_dir, name + ".json"), "w"), indent=1, sort_keys=True)
         finally:
             subprocess.call(["git", "-C", "/repo", "worktree", "remove", "--force", wt])
